@@ -1,4 +1,5 @@
-"""Fail-closed translation of Quantity.quantize, Quantity.__round__ and
+"""Fail-closed translation of Quantity.quantize, Quantity.__round__, the unary
+operators __abs__ / __neg__ / __pos__, the end of Quantity.__new__ and
 Quantity.allocate (src/quantity/__init__.py) to Gallina over the types of
 Model/Quantity.v and Model/Alloc.v.
 
@@ -48,6 +49,10 @@ class Tr(qlayer.Tr):
             return f"(qneg {q})" if q else None
         if isinstance(e, ast.Name) and env.get(e.id, (None,))[0] == 'q':
             return env[e.id][1]
+        if isinstance(e, ast.Call) and isinstance(e.func, ast.Name) and e.func.id == 'abs' \
+                and len(e.args) == 1 and not e.keywords:
+            q = self.q_of(e.args[0], env)
+            return f"(qabs {q})" if q else None
         # Decimal(x, 0): decimalfp rounding to an integer, default mode
         if isinstance(e, ast.Call) and isinstance(e.func, ast.Name) and e.func.id == 'Decimal' \
                 and len(e.args) == 2 and not e.keywords and isinstance(e.args[1], ast.Constant) \
@@ -145,6 +150,9 @@ FUNCS = [
         'qty', 'quantize_impl'), [None]),
     (Fn('Quantity', '__round__', [('self', 'qty'), ('n_digits', 'z')], 'qty', 'qty_round_impl'),
      [0]),
+    (Fn('Quantity', '__abs__', [('self', 'qty')], 'qty', 'qty_abs_impl'), []),
+    (Fn('Quantity', '__neg__', [('self', 'qty')], 'qty', 'qty_neg_impl'), []),
+    (Fn('Quantity', '__pos__', [('self', 'qty')], 'qty', 'qty_pos_impl'), []),
 ]
 COQTYPE = dict(qlayer.COQTYPE, optmode='option mode', z='Z')
 
